@@ -6,6 +6,7 @@ import itertools
 from hypothesis import strategies as st
 
 from .. import gen, ref
+from ..gen import prob
 from ..build import Ctx, Injected, J, T, make_graph
 from ..core import Violation
 from ..observe import call_multiset, run_sync
@@ -34,7 +35,7 @@ ASSUMPTIONS = [
 
 @st.composite
 def _case(draw, tier):
-    if draw(st.floats(0, 1)) < 0.25:
+    if prob(draw, 0.25):
         nodes = draw(gen.permuted(draw(gen.g1_nodes(2, 7))))
         labels = ["dag"]
     else:
